@@ -139,11 +139,11 @@ def _check_series(p: Partial, cfg: dict, series: list[tuple[float, tuple[int, ..
 def _pure_unit(item) -> Partial:
     from pynenc.orchestrator.atomic_service import can_run_atomic_service
 
-    n, interval_min, grid, cycles = item
+    n, interval_min, grid, cycles = item[:4]
     p = Partial()
     interval_s = interval_min * 60
     slot_s = interval_s / n
-    for margin_min in _margins(slot_s):
+    for margin_min in (item[4] if len(item) > 4 else _margins(slot_s)):
         margin_s = margin_min * 60
         for offset in OFFSETS:
             for hist in (False, True) if offset == 0.0 else (False,):
@@ -220,6 +220,10 @@ def run(ctx: Ctx) -> None:
     grid = 3000 if ctx.thorough else 600
     cycles = 3
     items = [(n, i, grid, cycles) for n in range(1, nmax + 1) for i in INTERVALS_MIN]
+    if not ctx.thorough:
+        # quick: larger pools only where consecutive windows touch (margin 0: start_k + slot vs start_k+1 in doubles),
+        # boundaries and their neighbours on a coarse grid
+        items += [(n, i, 16, cycles, [0.0]) for n in range(nmax + 1, 17) for i in INTERVALS_MIN]
     rot = ctx.seed % len(items)
     items = items[rot:] + items[:rot]
     for part in par.pmap(_pure_unit, items):
@@ -238,7 +242,7 @@ def run(ctx: Ctx) -> None:
         "states = configurations, transitions = instants, evaluations = can_run_atomic_service calls"
     )
     ctx.extra["traces_validated_against_impl"] = ctx.counters.get("transitions", 0)
-    ctx.extra["runner_counts"] = f"1..{nmax}"
+    ctx.extra["runner_counts"] = f"1..{nmax}" + ("" if ctx.thorough else " (+ 9..16 with margin 0 at the slot boundaries)")
     ctx.assume("IEEE double arithmetic; gap tolerance 1e-9 s (4e-6 s at epoch offsets > 1e9)")
     ctx.assume("instants are sampled (dense grid + all boundaries); between two samples the "
                "implementation is piecewise constant because it only compares t mod cycle with two bounds")
